@@ -207,6 +207,8 @@ def _mutators(m):
         out.append(("metamodule inner link", lambda: m.project.connect(m.project.modules[-1], m.project.output) if len(m.project.modules) > 1 else None))
     if isinstance(m, Sampler):
         out.append(("sampler envelope point", lambda: m.volume_envelope.points.append((300, 5))))
+        out.append(("sampler pitch envelope point", lambda: m.pitch_envelope.points.append((7, 9))))
+        out.append(("sampler effect envelope point", lambda: m.effect_control_envelopes[1].points.insert(0, (1, 2))))
         out.append(("sampler envelope flag", lambda: setattr(m.pitch_envelope, "enable", True)))
         out.append(("sampler note map", lambda: m.note_samples.__setitem__(list(m.note_samples)[3], 2)))
 
@@ -267,6 +269,8 @@ def loads_of_same_bytes_are_independent(H, cname):
         from rv.modules.amplifier import Amplifier
 
         m.effect = Synth(Amplifier())
+        m.pitch_envelope.points = []  # an envelope saved with zero points
+        m.effect_control_envelopes[1].points = []
     data = Synth(m).read()
     a = read_sunvox_file(io.BytesIO(data)).module
     b = read_sunvox_file(io.BytesIO(data)).module
